@@ -11,6 +11,7 @@ import os
 import re
 
 import core
+import history
 import pipeline
 from core import Rng, derive
 
@@ -93,6 +94,7 @@ def gen_cases(tier, seed):
     quick = tier == "quick"
     n = 0
     yield from gen_twins(tier, seed)
+    yield from history.gen_text_cases(PROP, tier, seed, 400 if quick else 6000)
     # the name -> opcode table: hand-written text bytecode naming every instruction once, in a function that never runs
     for r in range(4 if quick else 16):
         rng = Rng(derive(seed, PROP, "optable", r))
@@ -221,6 +223,8 @@ def json_list(items):
 def run_case(case):
     if case["kind"] == "twins":
         return run_twins(case)
+    if case["kind"] == "texthist":
+        return history.run_text_case(case)
     if case["kind"] == "optable":
         return run_optable(case)
     files, entry = pipeline.case_files(case)
@@ -329,6 +333,9 @@ def run_case(case):
 
 def shrink(case):
     if case.get("kind") == "twins":
+        return
+    if case.get("kind") == "texthist":
+        yield from history.shrink(case)
         return
     yield from pipeline.shrink_env(case)
     yield from pipeline.shrink_program(case)
